@@ -104,6 +104,7 @@ func C05(c *sim.Ctx) {
 		var desc string
 		var apply func() error
 		var onOK func()
+		var storing *chaingen.Block
 		op := t.Draw("op", 14)
 		isPrune := false
 		switch {
@@ -126,7 +127,13 @@ func C05(c *sim.Ctx) {
 				c.Fault("prune")
 			}
 		case op <= 5 || len(m.Chain) == 0:
+			if class == 2 && t.Draw("store.empty", 4) == 3 {
+				// a block without state changes: its child builds on the unchanged root
+				d.opts.Empty = true
+			}
 			b := d.next(m.Head())
+			d.opts.Empty = false
+			storing = b
 			desc = fmt.Sprintf("store block %d v%s diff=%s", b.B.Number, b.Version, diffString(b))
 			apply = func() error { return n.StoreBlock(b) }
 			if class == 2 && t.Draw("store.path", 3) == 2 {
@@ -248,6 +255,21 @@ func C05(c *sim.Ctx) {
 			k := &checker{n: n, m: m}
 			if mm := k.try(func() { fullCheckL1(k, d.g, 3) }); mm != nil {
 				c.Fail("memory_disagrees_with_disk_after_failed_write", opKind(desc)+"/"+mm.class+":"+mm.key, "after the failed %q: %s", desc, mm.detail)
+			}
+			// (b') the block whose store just failed is NOT the head: its child does not link to the chain
+			if storing != nil && t.Draw("child.of.failed", 2) == 1 {
+				oo := d.opts
+				oo.Version, oo.Salt = storing.Version, 4242
+				child := d.g.Next(t, storing, oo)
+				if cerr := n.StoreBlock(child); cerr == nil {
+					c.Fail("unlinked_block_accepted", "child_of_a_block_whose_store_failed", "after the failed %q the node accepted block %d, child of that (never stored) block; the chain now has a gap", desc, child.B.Number)
+				}
+				imgC, ierr := faultdb.Image(n.FDB.Inner)
+				c.Must(ierr, "image after rejected child")
+				if oa, ob, ch := faultdb.Diff(imgBefore, imgC, 5); len(oa)+len(ob)+len(ch) > 0 {
+					c.Fail("rejected_block_left_traces", "child_of_a_block_whose_store_failed", "rejecting block %d (child of the block whose store failed) changed the database (removed=%d added=%d changed=%d keys)", child.B.Number, len(oa), len(ob), len(ch))
+				}
+				c.Probe("child_of_failed_store_offered")
 			}
 			// (c) the same operation succeeds when retried
 			n.FDB.Paused = false
